@@ -89,6 +89,16 @@ class _G:
       self.has_enum = False
     if ts in ("from", "paren") and r.random() < 0.25:
       o.append("from typing import TypeVar\nT = TypeVar('T')")
+    # existing Any / Never annotations (return and variable positions) need the names in scope
+    self.any_names = []
+    if r.random() < 0.4:
+      if ts == "module":
+        self.any_names = ["typing.Any", "typing.Never"]
+      elif ts == "alias":
+        self.any_names = ["t.Any", "t.Never"]
+      else:
+        o.append(r.choice(["from typing import Any, Never", "from typing import Any\nfrom typing import Never"]))
+        self.any_names = ["Any", "Never"]
     if r.random() < 0.5:
       o.append("")
 
@@ -218,6 +228,8 @@ class _G:
     ret = self.ann() if r.random() < 0.15 else ""
     if r.random() < 0.04:
       ret = "None"
+    if self.any_names and r.random() < 0.2:
+      ret = r.choice(self.any_names)
     kw = "async def" if r.random() < 0.07 else "def"
     decos = []
     if self.deco and r.random() < 0.25:
@@ -260,7 +272,9 @@ class _G:
     for _ in range(r.choice([0, 1, 1, 2, 3])):
       v = self.name("ca")
       k = r.random()
-      if k < 0.5:
+      if self.any_names and k < 0.12:
+        lines.append(f"{ind}{v}: {r.choice(self.any_names)}" + (f" = {self.lit()}" if r.random() < 0.6 else ""))
+      elif k < 0.5:
         lines.append(f"{ind}{v} = {self.lit()}")
       elif k < 0.65:
         lines.append(f"{ind}{v}: {self.ann()} = {self.lit()}")
@@ -309,6 +323,8 @@ class _G:
     v = self.name("v")
     k = r.random()
     self.vars.append(v)
+    if self.any_names and k < 0.12:
+      return [f"{v}: {r.choice(self.any_names)}" + (f" = {self.lit()}" if r.random() < 0.6 else "")]
     if k < 0.35:
       return [f"{v} = {self.lit()}"]
     if k < 0.45:
